@@ -21,7 +21,10 @@ RULE = (
     "from side operands or freely, so every buffer-to-stage assignment occurs (what pipeline-duplicate-buffers refuses with "
     "NotImplementedError is a rejection); extra read-only inputs, second outputs, a second op per stage; rarely: accumulating "
     "outs, an index scalar operand, a copy after the loop that reads an L1 buffer. Bounds are constants "
-    "with lb in {0,1,2,3}, step in {1,2,3}, trip counts 0..6 (0..8 thorough), about three quarters >= stages-1. In about 30% of the "
+    "with lb in {-3..3}, step in {1,2,3}, trip counts 0..6 (0..8 thorough; up to 9 from a negative lb), about three quarters >= "
+    "stages-1. A negative lb (constant or run-time) mostly comes with an ub >= stages-1 (i = lb..-1, 0..ub-1), otherwise with a "
+    "negative ub; ub is also negative for some zero-trip loops; tiles are then addressed by %i + %c<-lb> (first index op of the "
+    "body), since a negative row is outside every buffer. In about 30% of the "
     "cases lb and/or ub and/or step (every combination) are run-time values: index function arguments, or argument + constant; "
     "both programs are executed with the recipe's values, chosen to make a difference (run-time lb mostly non-zero, one fifth "
     "lb >= ub with a constant ub >= stages-1; run-time step mostly != 1; ub not a multiple of step), while the bounds that stay "
@@ -306,6 +309,12 @@ def check_case(rc, want_text=False):
     if trip != max(0, -((rc["lb"] - rc["ub"]) // rc["step"])):
         classes.append("pipeline-canonicalize-for changed the trip count (C17, not judged here)")
     classes.append("pipelined" if constructed else "not-pipelined")
+    if rc["lb"] < 0:
+        classes.append("negative lb: " + ("run-time" if rc.get("lb_dyn") else "constant"))
+        if not any(rc.get(w + "_dyn") for w in ("lb", "ub", "step")) and rc["step"] == 1 and rc["ub"] >= S - 1:
+            classes.append("negative lb: constant, constant ub >= stages-1, constant step 1")
+    if rc["ub"] < 0:
+        classes.append("negative ub: " + ("run-time" if rc.get("ub_dyn") else "constant") + (", lb < ub" if rc["lb"] < rc["ub"] else ""))
     if rc.get("lb_dyn"):
         classes.append("run-time lb: " + ("lb >= ub (zero trip)" if rc["lb"] >= rc["ub"] else "0" if rc["lb"] == 0 else "non-zero"))
         if rc["lb"] >= rc["ub"] and not rc.get("ub_dyn") and not rc.get("step_dyn") and rc["step"] == 1 and rc["ub"] >= S - 1:
